@@ -187,15 +187,21 @@ RECURSIVE StripCls(_)
 StripCls(n) == IF IsAtom(n) THEN [n EXCEPT !.o = 0] ELSE [n EXCEPT !.cls = "", !.o = 0, !.kids = [ i \in DOMAIN n.kids |-> StripCls(n.kids[i]) ]]
 RECURSIVE StripO(_)
 StripO(n) == IF IsAtom(n) THEN [n EXCEPT !.o = 0] ELSE [n EXCEPT !.o = 0, !.kids = [ i \in DOMAIN n.kids |-> StripO(n.kids[i]) ]]
+RECURSIVE PlainClasses(_)
+PlainClasses(r) == IsLeafR(r) \/ (r.c \in {"All", "Any", "AtLeast", "AtMost", "Xor", "ExactlyOne"} /\ \A i \in DOMAIN r.a : PlainClasses(r.a[i]))
+RECURSIVE AllNamed(_)
+AllNamed(r) == IsLeafR(r) \/ (r.c \in {"All", "Any", "AtLeast", "AtMost"} /\ r.id # "" /\ \A i \in DOMAIN r.a : AllNamed(r.a[i]))
 EvErrors(e) ==
   LET m == e.model IN
   Fail("accepted_welldef", (e.errs = <<>>) => WellDefined(m))
   \cup Fail("tree_accepted", TreeDistinct(m) => e.errs = <<>>)
   \cup Fail("shared_accepted", SharesIdenticalOnly(StripO(m)) => e.errs = <<>>)
+  \* ... also judged on what the recipe DENOTES (plain classes only: below negating connectives generated ids may coincide): copies of a
+  \* sub-proposition the caller wrote identically are identical, however their children were spelled
+  \* (and only where the caller named every sub-proposition: generated ids concatenate the children's ids, "ab","c" and "a","bc" coincide)
+  \cup Fail("shared_accepted", ("recipe" \in DOMAIN e /\ AllNamed(e.recipe) /\ ~IsLeafR(e.recipe) /\ SharesIdenticalOnly(Mk(e.recipe))) => e.errs = <<>>)
 
 (* ---- C04: constructors have their documented truth functions -------------------- *)
-RECURSIVE PlainClasses(_)
-PlainClasses(r) == IsLeafR(r) \/ (r.c \in {"All", "Any", "AtLeast", "AtMost", "Xor", "ExactlyOne"} /\ \A i \in DOMAIN r.a : PlainClasses(r.a[i]))
 EvBuild(e) ==
   LET r == e.recipe
       m == e.model
